@@ -186,10 +186,15 @@ func (r *Reporter) Finish() {
 	}
 	if len(r.infraErr) > 0 {
 		for _, e := range r.infraErr {
-			fmt.Fprintln(os.Stderr, "verif: harness/infrastructure error:", e)
+			fmt.Fprintln(os.Stderr, "verif: harness/infrastructure error:", head(e, 1500))
 		}
-		cleanup()
-		os.Exit(2)
+		if r.newCount == 0 {
+			cleanup()
+			os.Exit(2)
+		}
+		// violations found by the parts that did run stand on their own
+		r.Cov["exhaustive"] = false
+		r.Cov["infrastructure_errors"] = len(r.infraErr)
 	}
 	seed, _ := strconv.Atoi(os.Getenv("VERIF_SEED"))
 	cov := r.Cov
